@@ -114,6 +114,115 @@ func runAuditionPeriods(modality string, traces [][]bool, withT bool, lastClosed
 	return out
 }
 
+const roleText = "role r\n  :noop true\n  spotlight true\n  signal s scalar at (?P<ts_now>)s=(?P<scalar>\\d+)\nend\ncast\n  x plays r\nend\n"
+
+func sample(ts float64, b bool) cmd.VerifEvent {
+	v := 1.0
+	if b {
+		v = 5.0
+	}
+	return cmd.VerifEvent{Kind: "sig", Ts: ts, Values: []cmd.VerifValue{{Actor: "x", Sig: "s", IsNum: true, Num: v}}}
+}
+
+func reportsOf(res *cmd.VerifAuditionResult, who string) []int {
+	var c []int
+	for _, o := range res.Outs {
+		if o.Kind == "report" && o.Auditor == who {
+			c = append(c, o.Result)
+		}
+	}
+	return c
+}
+
+func problem(res *cmd.VerifAuditionResult, allowAuditErr bool) string {
+	if res.Panic != "" {
+		return res.Panic
+	}
+	if res.ParseErr != "" {
+		return "parse: " + res.ParseErr
+	}
+	if res.AuditErr != "" && !allowAuditErr {
+		return "audit error: " + res.AuditErr
+	}
+	return ""
+}
+
+// runThroughout: `al audits throughout` with a predicate over a signal only;
+// the single period spans the whole play (also when NO sample ever arrives:
+// the empty observation sequence must still be judged at the end).
+func runThroughout(modality string, tr []bool) periodCase {
+	cfg := roleText + "audience\n  al audits throughout\n  al expects " + modality + ": [x s] > 3\nend\n"
+	var evs []cmd.VerifEvent
+	ts := 0.0
+	for _, b := range tr {
+		ts += 0.5
+		evs = append(evs, sample(ts, b))
+	}
+	evs = append(evs, cmd.VerifEvent{Kind: "final", Ts: ts + 1.2871})
+	res := cmd.VerifAuditLoop(cfg, evs, false)
+	return periodCase{Name: modality, Trace: tr, Codes: reportsOf(&res, "al"), Panic: problem(&res, false)}
+}
+
+// runTimePredicate: the predicate is over t (`t < K` or `t >= K`), which is
+// assigned in EVERY round, the initial one and the final one included: the
+// observation sequence is true^a false^b (or its negation), and the last
+// observation falls on the very round that ends the period.
+func runTimePredicate(modality string, a, b int, negated bool) periodCase {
+	// rounds at t = 0 (initial), 1, 2, ... , and the final one
+	n := a + b // total observations: the initial round, n-2 plain rounds, the final round
+	if n < 2 {
+		return periodCase{Name: modality, Trace: nil, Codes: nil, Panic: "skip"}
+	}
+	k := float64(a) - 0.5 // t < k holds for the first a rounds (t = 0 .. a-1)
+	pred := fmt.Sprintf("t < %g", k)
+	if negated {
+		pred = fmt.Sprintf("t >= %g", k)
+	}
+	cfg := roleText + "audience\n  al audits throughout\n  al expects " + modality + ": " + pred + "\nend\n"
+	var evs []cmd.VerifEvent
+	for i := 1; i <= n-2; i++ { // rounds 1 .. n-2
+		evs = append(evs, cmd.VerifEvent{Kind: "sig", Ts: float64(i)})
+	}
+	evs = append(evs, cmd.VerifEvent{Kind: "final", Ts: float64(n-1) + 0.2871})
+	res := cmd.VerifAuditLoop(cfg, evs, false)
+	var tr []bool
+	for i := 0; i < n; i++ {
+		t := float64(i)
+		if i == n-1 {
+			t += 0.2871
+		}
+		v := t < k
+		if negated {
+			v = !v
+		}
+		tr = append(tr, v)
+	}
+	return periodCase{Name: modality, Trace: tr, Codes: reportsOf(&res, "al"), Panic: problem(&res, false)}
+}
+
+// runWithFailingNeighbour: a second auditor, declared after al, whose
+// activation condition fails to evaluate as soon as the signal is sampled: the
+// audit loop returns with an error, and its deferred final round must still
+// give al's open period its end-of-period judgement.
+func runWithFailingNeighbour(modality string, tr []bool) periodCase {
+	cfg := roleText + "audience\n  al audits throughout\n  al expects " + modality + ": [x s] > 3\n" +
+		"  zz audits only while ([x s] > 100) || (mood > 3)\n  zz expects always: true\nend\n"
+	var evs []cmd.VerifEvent
+	ts := 0.0
+	for _, b := range tr {
+		ts += 0.5
+		evs = append(evs, sample(ts, b))
+	}
+	evs = append(evs, cmd.VerifEvent{Kind: "final", Ts: ts + 1.2871})
+	res := cmd.VerifAuditLoop(cfg, evs, false)
+	// the loop stops at the first sample: al has observed exactly that one
+	obs := tr
+	if len(tr) > 1 {
+		obs = tr[:1]
+	}
+	return periodCase{Name: modality, Trace: obs, Codes: reportsOf(&res, "al"), Panic: problem(&res, true)}
+}
+
 func main() {
 	seed := flag.Int64("seed", 1, "")
 	tier := flag.String("tier", "quick", "")
@@ -232,6 +341,32 @@ func main() {
 				group = append(group, traces[j])
 			}
 			audPeriods = append(audPeriods, runAuditionPeriods(n, group, rng.Intn(2) == 0, rng.Intn(2) == 0)...)
+		}
+		// one period spanning the play, possibly without any sample
+		for l := 0; l <= 3; l++ {
+			for bits := 0; bits < 1<<uint(l); bits++ {
+				tr := make([]bool, l)
+				for i := range tr {
+					tr[i] = bits&(1<<uint(i)) != 0
+				}
+				audPeriods = append(audPeriods, runThroughout(n, tr))
+				if l >= 1 {
+					audPeriods = append(audPeriods, runWithFailingNeighbour(n, tr))
+				}
+			}
+		}
+		// predicates over t: the last observation is made in the final round
+		for a := 0; a <= 3; a++ {
+			for b := 0; b <= 2; b++ {
+				if a+b == 0 {
+					continue
+				}
+				for _, neg := range []bool{false, true} {
+					if pc := runTimePredicate(n, a, b, neg); pc.Panic != "skip" {
+						audPeriods = append(audPeriods, pc)
+					}
+				}
+			}
 		}
 	}
 
